@@ -160,7 +160,53 @@ def work(tier, seed):
     for kind in kinds:
         units.append({"cfg": mk_cfg(kind, 1, 1, SHAPES2, seed), "poison": True, "depth": 3 if tier == "quick" else 4})
         units.append({"cfg": mk_cfg(kind, 1, 2, SHAPES2, seed), "poison": True, "depth": 4 if tier == "quick" else 5})
+    # computed root finite in the preconditioner dtype but overflowing the storage (parameter) dtype
+    for freq in (1, 2):
+        units.append({"overflow": True, "depth": 2 if tier == "quick" else 3, "cfg": seq.cfg_with(shapes=SHAPES2, max_dim=4, merge=True, freq=freq, start=freq, betas=[0.0, 1.0], pdtype="f32", prec_dtype="f64", eps=1e-80, lr=0.125, seed=seed, precond=["shampoo", {"tol": 1}])})
     return units
+
+
+def run_overflow(cfg, hist):
+    """float32 parameters, float64 factors, epsilon 1e-80: the inverse root of the rank-1 factor of the 1-D block A is
+    ~1e40, finite in float64 but Inf once stored in float32 -> the refresh must raise PreconditionerValueError before
+    any parameter is modified, and the stored roots stay finite."""
+    import torch
+    from distributed_shampoo.shampoo_types import PreconditionerValueError
+
+    params, opt = seq.build(cfg)
+    model = Model(cfg)
+    msgs, digests = [], []
+    for ti, mask in enumerate(hist):
+        seq.set_grads(params, cfg, ti, mask)
+        refresh = model.will_refresh(mask)
+        model.apply(mask, None)
+        before_p = [p.detach().clone() for p in params]
+        raised = None
+        try:
+            opt.step()
+        except PreconditionerValueError:
+            raised = "value"
+        except Exception as e:
+            raised = f"{type(e).__name__}: {str(e)[:80]}"
+        want = "value" if (refresh and mask[0]) else None
+        where = f"overflow run, step {ti} mask {mask}"
+        if raised != want:
+            msgs.append(f"{where}: raised {raised}, expected {want} (root of block 0 overflows the float32 storage dtype)")
+        if raised is not None:
+            for b, p in enumerate(params):
+                if not bit_equal(p.detach(), before_p[b]):
+                    msgs.append(f"{where}: step raised but parameter {b} was modified")
+        for b in range(len(params)):
+            for f, m in enumerate(stored(opt, params, b, False)):
+                if not torch.isfinite(m).all():
+                    msgs.append(f"{where}: stored inverse root {f} of block {b} is not finite")
+        for b, p in enumerate(params):
+            if not torch.isfinite(p).all():
+                msgs.append(f"{where}: parameter {b} is not finite")
+        digests.append(seq.visible_digest(opt, params))
+        if msgs or raised is not None:
+            break
+    return msgs[:4], digests
 
 
 # ----------------------------------------------------------------------------- injector
@@ -335,7 +381,13 @@ def run_unit(unit):
                 case.update(extra)
             res["violations"].append({"case": case, "msg": f"{msgs[0]} [{cfg['precond']} freq={cfg['freq']}]", "kind": msgs[0].split(":")[-1][:30]})
 
-    if unit.get("poison"):
+    if unit.get("overflow"):
+        for h in itertools.product(seq.all_masks(2), repeat=unit["depth"]):
+            hist = [list(m) for m in h]
+            msgs, digests = run_overflow(cfg, hist)
+            record(hist, msgs, digests, {"overflow": True})
+            res["stats"]["overflow_runs"] = res["stats"].get("overflow_runs", 0) + 1
+    elif unit.get("poison"):
         depth = unit["depth"]
         nb = len(cfg["shapes"])
         masks = [[1] * nb, [1, 0], [0, 1]]
@@ -378,6 +430,8 @@ def run_unit(unit):
 
 
 def replay(case):
+    if case.get("overflow"):
+        return run_overflow(case["cfg"], case["hist"])[0]
     p = case.get("poison")
     msgs, _ = run_history(case["cfg"], case["hist"], None, poison=tuple(p) if p else None)
     return msgs
